@@ -8,7 +8,7 @@ import tempfile
 import time
 
 from . import runner
-from .kernel import Streams
+from .kernel import Streams, quiet_print as _quiet_print
 
 VERIF = runner.VERIF
 PROPS = ["C14", "C15", "C16", "C17", "C18", "C20"]
@@ -255,7 +255,7 @@ def seam_audit(a, rest, seed):
     fs = SimFS(ctx)
     sfp.open = fs.open
     wl.open = fs.open
-    spmod.print = lambda *x, **k: None
+    spmod.print = _quiet_print
     calls = {
         "C01": [("get_kappa", [], {}), ("get_deltaMax", [], {}), ("get_delta", [], {})],
         "C02": [("get_delta", [], {}), ("get_linear_sigma", [5], {})],
